@@ -124,7 +124,7 @@ SRC_RAW = {
     "C11": ["SrcAct"],
     "C12": ["SrcAct"],
     "C15": ["SrcGen", "SrcGenMaps"],            # + the name -> flag dictionaries of a generated host
-    "C16": ["SrcGen", "SrcGenTop"],            # the vulnerability predicate its invariant is stated with
+    "C16": ["SrcGen", "SrcGenTop", "SrcGenMaps"],            # the vulnerability predicate its invariant is stated with
     "C17": ["SrcLoad", "SrcLoadTop", "SrcLoadKeys"],
     "C18": ["SrcLoad", "SrcLoadKeys"],
     "C20": ["SrcBound"],
